@@ -397,3 +397,24 @@ impl FnAbi {
         func_cmplr.builder.seal_all_blocks();
     }
 }
+
+// verification hook (C19/C02): canonical text of the pass modes, see verif_abi.rs
+#[cfg(capy_verif)]
+impl FnAbi {
+    pub(crate) fn verif_render(&self) -> String {
+        let mode = |m: &PassMode| match m {
+            PassMode::Cast { tys, .. } => format!(
+                "cast[{}]",
+                tys.iter().map(|t| t.to_string()).collect::<Vec<_>>().join(",")
+            ),
+            PassMode::Direct(t) => format!("direct[{t}]"),
+            PassMode::Indirect(Some(sz)) => format!("byval[{sz}]"),
+            PassMode::Indirect(None) => "indirect".to_string(),
+        };
+        let args: Vec<String> = (self.args.iter())
+            .map(|(m, idx)| format!("{}@{}", mode(m), idx))
+            .collect();
+        let ret = self.ret.as_ref().map(mode).unwrap_or("none".to_string());
+        format!("ret={} args={}", ret, args.join(";"))
+    }
+}
